@@ -24,7 +24,7 @@ ACTIONS = ["Setup", "ParseChallenge", "FetchPRM", "FallbackRootAS", "FetchASM", 
            "GetCode", "CheckState", "CheckIss", "Exchange", "Install", "Finish"]
 RESULTS = ["ok", "nil403", "parse", "no_as", "asm", "prereg", "dcr", "noreg", "fetcher", "state", "iss", "exchange", "post"]
 SCRIPT = ("js", "data", "vbs")
-LEAD_CFG = "OAuthFlow_lead.cfg"  # needed while OAuthFlow.PRMLeadDocs / ChallengeLeads are not empty (else None)
+LEAD_CFG = None  # "OAuthFlow_lead.cfg" is needed while OAuthFlow.PRMLeadDocs / ChallengeLeads are not empty (else None)
 # URL classes (OAuthFlow!URLClasses: scheme class x authority class x form) that must have been concretised in a URL field
 # of a served metadata document of each kind: tags as written by the harness (c15URLCls.tag), script scheme abstracted
 URL_CLASSES = ("https", "lo", "http", "opaque-script", "script_lo", "script_rem")
